@@ -24,7 +24,9 @@ TRUSTED_BASE = [
 
 
 def check_property(pid, tier, seed, args, t0):
-    funcs, lemmas = CLI.select_tasks(pid, all_funcs=args.record_expected)
+    # thorough: every function under contract is verified in the same run, so that each callee
+    # contract the property's functions rely on is itself discharged here (closure)
+    funcs, lemmas = CLI.select_tasks(pid, all_funcs=args.record_expected or tier == 'thorough')
     C = RUN._STATE['contracts']
     tasks = [('lemma', n, seed, tier) for n in lemmas] + [('func', q, seed, tier) for q in funcs]
     results = CLI.run_pool(tasks, args.jobs)
@@ -212,6 +214,28 @@ def check_property(pid, tier, seed, args, t0):
 
     # bounded stand-ins (never counted as proved)
     bounded = run_bounded(pid, tier, seed)
+    closure_open = []
+    if tier == 'thorough':
+        # (an open known finding of another property is reported by that property's check)
+        all_open = set(k['obligation'] for k in CLI.load_json(
+            CLI.KNOWN, {'findings': []}).get('findings', []) if k.get('status') == 'open')
+        closure_open = sorted(set(CLI.agg_label(o) for o in obls
+                                  if o['status'] != 'discharged' and pid not in o['props'])
+                              - all_open)
+        t1 = time.time()
+        rp_all = CLI.run_replay(pid, 'thorough', {'func': '', 'mode': 'all', 'model': None}, tier,
+                                seed, mode='all')
+        b = {'name': 'replay_templates', 'label': 'bounded (not counted as proved)',
+             'bound': 'every native replay template that bears on the property, on the tree as it '
+                      'is: ' + ', '.join('%s (%s cases)' % kv for kv in sorted(
+                          (rp_all.get('templates_run') or {}).items())),
+             'why_not_proved': 'differential / scenario tests of the real code; they exist to '
+                               'attach failing inputs to failed obligations',
+             'evaluations': rp_all.get('evaluations', 0), 'wall_s': round(time.time() - t1, 2),
+             'failures': [rp_all] if rp_all.get('reproduced') else []}
+        if rp_all.get('note') and not rp_all.get('templates_run'):
+            b['error'] = rp_all.get('note')
+        bounded.append(b)
     for b in bounded:
         if b.get('error') is not None and not b.get('failures'):
             # a stand-in that crashed has checked nothing: checker error, never a silent pass
@@ -261,7 +285,7 @@ def check_property(pid, tier, seed, args, t0):
         rc = 3
     elif violations:
         rc = 1
-    elif unsupported or undecided or missing or context_undecided or n_obl == 0:
+    elif unsupported or undecided or missing or context_undecided or closure_open or n_obl == 0:
         rc = 2
     if violations and rc == 3:
         rc = 1 if not errors else 3
@@ -295,6 +319,7 @@ def check_property(pid, tier, seed, args, t0):
             'bounded_standins': bounded,
             'undecided': [l for l, _ in undecided], 'missing_expected': missing,
             'context_changed': context_undecided,
+            'closure_not_discharged': closure_open,
             'unsupported': unsupported, 'errors': errors,
             'refuted_or_regressed': [l for l, _, _ in violations],
             'known_findings': [l for l, _ in known_hits],
@@ -332,6 +357,8 @@ def check_property(pid, tier, seed, args, t0):
         print('  MISSING expected obligation', l)
     for l in context_undecided:
         print('  CONTEXT changed (undecided): %s' % l)
+    for l in closure_open:
+        print('  CLOSURE: obligation of a function outside this property not discharged: %s' % l)
     return rc
 
 
